@@ -103,7 +103,7 @@ pub fn plan(id: &str, tier: &str, seed: u64, round: u64) -> Plan {
     let mut rg = Rg::from_seed(vmodel::derive_seed(seed, id, round, 0x9e37));
     match id {
         "C01" => {
-            let n = if thorough { 480 } else { 192 };
+            let n = if thorough { 640 } else { 384 };
             let cfg = string_cfg(id);
             let mut specs: Vec<EnumSpec> = (0..n)
                 .map(|i| {
@@ -119,7 +119,7 @@ pub fn plan(id: &str, tier: &str, seed: u64, round: u64) -> Plan {
             name_specs(&mut specs, round);
             Plan {
                 specs,
-                params: params(&[("cases", if thorough { 5000 } else { 600 }), ("max_flip_letters", if thorough { 12 } else { 8 })]),
+                params: params(&[("cases", if thorough { 6000 } else { 1500 }), ("max_flip_letters", if thorough { 12 } else { 9 })]),
                 strum_features: vec!["derive".into()],
                 profiles: vec!["dev"],
                 policy: Policy::TaggedOnly,
@@ -131,7 +131,7 @@ pub fn plan(id: &str, tier: &str, seed: u64, round: u64) -> Plan {
             }
         }
         "C02" => {
-            let n = if thorough { 480 } else { 192 };
+            let n = if thorough { 640 } else { 384 };
             let mut cfg = string_cfg(id);
             cfg.derives = derives(&["EnumString", "Display", "AsRefStr", "IntoStaticStr", "EnumMessage"]);
             cfg.allow_transparent = true;
@@ -152,7 +152,7 @@ pub fn plan(id: &str, tier: &str, seed: u64, round: u64) -> Plan {
             name_specs(&mut specs, round);
             Plan {
                 specs,
-                params: params(&[("draws", if thorough { 16 } else { 4 })]),
+                params: params(&[("draws", if thorough { 16 } else { 6 })]),
                 strum_features: vec!["derive".into()],
                 profiles: vec!["dev"],
                 policy: Policy::TaggedOnly,
@@ -161,7 +161,7 @@ pub fn plan(id: &str, tier: &str, seed: u64, round: u64) -> Plan {
             }
         }
         "C03" => {
-            let n = if thorough { 480 } else { 192 };
+            let n = if thorough { 640 } else { 384 };
             let mut cfg = string_cfg(id);
             cfg.derives = derives(&["Display", "AsRefStr", "IntoStaticStr", "VariantNames"]);
             cfg.allow_default = false;
@@ -225,7 +225,7 @@ pub fn plan(id: &str, tier: &str, seed: u64, round: u64) -> Plan {
             }
         }
         "C11" => {
-            let n = if thorough { 384 } else { 128 };
+            let n = if thorough { 448 } else { 256 };
             let sets: [&[&str]; 5] = [
                 &["EnumString", "Display"],
                 &["EnumString", "Display", "AsRefStr", "IntoStaticStr"],
@@ -249,7 +249,7 @@ pub fn plan(id: &str, tier: &str, seed: u64, round: u64) -> Plan {
             name_specs(&mut specs, round);
             Plan {
                 specs,
-                params: params(&[("cases", if thorough { 5000 } else { 800 }), ("max_flip_letters", if thorough { 10 } else { 6 }), ("draws", if thorough { 8 } else { 3 })]),
+                params: params(&[("cases", if thorough { 5000 } else { 1000 }), ("max_flip_letters", if thorough { 10 } else { 6 }), ("draws", if thorough { 8 } else { 3 })]),
                 strum_features: vec!["derive".into()],
                 profiles: vec!["dev"],
                 policy: Policy::TaggedOnly,
@@ -258,7 +258,7 @@ pub fn plan(id: &str, tier: &str, seed: u64, round: u64) -> Plan {
             }
         }
         "C12" => {
-            let n = if thorough { 384 } else { 160 };
+            let n = if thorough { 512 } else { 320 };
             let mut cfg = string_cfg(id);
             cfg.ci_heavy = true;
             cfg.allow_default_with = false;
@@ -278,7 +278,7 @@ pub fn plan(id: &str, tier: &str, seed: u64, round: u64) -> Plan {
             name_specs(&mut specs, round);
             Plan {
                 specs,
-                params: params(&[("cases", if thorough { 5000 } else { 400 }), ("max_flip_letters", if thorough { 12 } else { 10 })]),
+                params: params(&[("cases", if thorough { 5000 } else { 800 }), ("max_flip_letters", if thorough { 12 } else { 10 })]),
                 strum_features: vec!["derive".into(), "phf".into()],
                 profiles: vec!["dev"],
                 policy: Policy::TaggedOnly,
@@ -287,7 +287,7 @@ pub fn plan(id: &str, tier: &str, seed: u64, round: u64) -> Plan {
             }
         }
         "C16" => {
-            let n = if thorough { 384 } else { 160 };
+            let n = if thorough { 512 } else { 320 };
             let mut cfg = string_cfg(id);
             cfg.allow_fields = false;
             cfg.allow_generics = false;
@@ -298,7 +298,7 @@ pub fn plan(id: &str, tier: &str, seed: u64, round: u64) -> Plan {
             name_specs(&mut specs, round);
             Plan {
                 specs,
-                params: params(&[("cases", if thorough { 5000 } else { 400 }), ("max_flip_letters", if thorough { 10 } else { 8 })]),
+                params: params(&[("cases", if thorough { 5000 } else { 800 }), ("max_flip_letters", if thorough { 10 } else { 8 })]),
                 strum_features: vec!["derive".into(), "phf".into()],
                 profiles: vec!["dev"],
                 policy: Policy::TaggedOnly,
@@ -307,7 +307,7 @@ pub fn plan(id: &str, tier: &str, seed: u64, round: u64) -> Plan {
             }
         }
         "C17" => {
-            let n = if thorough { 400 } else { 160 };
+            let n = if thorough { 512 } else { 320 };
             let mut cfg = string_cfg(id);
             cfg.derives = derives(&["Display"]);
             cfg.allow_default = false;
@@ -319,7 +319,7 @@ pub fn plan(id: &str, tier: &str, seed: u64, round: u64) -> Plan {
             name_specs(&mut specs, round);
             Plan {
                 specs,
-                params: params(&[("payload_draws", if thorough { 256 } else { 32 })]),
+                params: params(&[("payload_draws", if thorough { 256 } else { 48 })]),
                 strum_features: vec!["derive".into()],
                 profiles: vec!["dev"],
                 policy: Policy::TaggedOnly,
@@ -328,7 +328,7 @@ pub fn plan(id: &str, tier: &str, seed: u64, round: u64) -> Plan {
             }
         }
         "C18" => {
-            let n = if thorough { 384 } else { 160 };
+            let n = if thorough { 512 } else { 320 };
             let mut cfg = string_cfg(id);
             cfg.allow_default = false;
             let mut specs: Vec<EnumSpec> = (0..n)
@@ -341,7 +341,7 @@ pub fn plan(id: &str, tier: &str, seed: u64, round: u64) -> Plan {
             name_specs(&mut specs, round);
             Plan {
                 specs,
-                params: params(&[("cases", if thorough { 5000 } else { 600 }), ("max_flip_letters", if thorough { 10 } else { 8 })]),
+                params: params(&[("cases", if thorough { 5000 } else { 1000 }), ("max_flip_letters", if thorough { 10 } else { 8 })]),
                 strum_features: vec!["derive".into()],
                 profiles: vec!["dev"],
                 policy: Policy::TaggedOnly,
@@ -362,7 +362,7 @@ pub fn plan(id: &str, tier: &str, seed: u64, round: u64) -> Plan {
                     }
                 }
             }
-            let extra = if thorough { 640 } else { 130 };
+            let extra = if thorough { 640 } else { 258 };
             for _ in 0..extra {
                 specs.push(gen::gen_iter(&mut rg, &base));
             }
@@ -379,7 +379,7 @@ pub fn plan(id: &str, tier: &str, seed: u64, round: u64) -> Plan {
         }
         "C05" => {
             let mut specs = Vec::new();
-            let reps = if thorough { 6 } else { 3 };
+            let reps = if thorough { 6 } else { 4 };
             for n in 0..=8usize {
                 for _ in 0..reps {
                     let c = gen::IterCfg { derives: derives(&["EnumIter"]), max_variants: 12, n_enabled: Some(n), ..Default::default() };
@@ -389,7 +389,7 @@ pub fn plan(id: &str, tier: &str, seed: u64, round: u64) -> Plan {
             name_specs(&mut specs, round);
             Plan {
                 specs,
-                params: params(&[("depth", if thorough { 4 } else { 3 }), ("cases", if thorough { 20000 } else { 3000 })]),
+                params: params(&[("depth", if thorough { 4 } else { 3 }), ("cases", if thorough { 20000 } else { 5000 })]),
                 strum_features: vec!["derive".into()],
                 profiles: vec!["dev", "rel"],
                 policy: Policy::TaggedOnly,
@@ -398,7 +398,7 @@ pub fn plan(id: &str, tier: &str, seed: u64, round: u64) -> Plan {
             }
         }
         "C08" => {
-            let n = if thorough { 640 } else { 256 };
+            let n = if thorough { 768 } else { 512 };
             let mut specs = Vec::new();
             for i in 0..n {
                 let fieldless = i % 2 == 0;
@@ -421,7 +421,7 @@ pub fn plan(id: &str, tier: &str, seed: u64, round: u64) -> Plan {
             }
         }
         "C06" => {
-            let per = if thorough { 48 } else { 16 };
+            let per = if thorough { 48 } else { 24 };
             let mut specs = Vec::new();
             for r in gen::REPRS.iter() {
                 for _ in 0..per {
@@ -440,7 +440,7 @@ pub fn plan(id: &str, tier: &str, seed: u64, round: u64) -> Plan {
             }
         }
         "C14" | "C15" => {
-            let n = if thorough { 480 } else { 192 };
+            let n = if thorough { 640 } else { 384 };
             let mut cfg = string_cfg(id);
             cfg.derives = derives(&[if id == "C14" { "EnumMessage" } else { "EnumProperty" }]);
             cfg.allow_default = false;
@@ -464,7 +464,7 @@ pub fn plan(id: &str, tier: &str, seed: u64, round: u64) -> Plan {
             }
         }
         "C10" => {
-            let reps = if thorough { 40 } else { 16 };
+            let reps = if thorough { 40 } else { 24 };
             let mut specs = Vec::new();
             for ne in 1..=8usize {
                 for _ in 0..reps {
@@ -474,7 +474,7 @@ pub fn plan(id: &str, tier: &str, seed: u64, round: u64) -> Plan {
             name_specs(&mut specs, round);
             Plan {
                 specs,
-                params: params(&[("depth", if thorough { 5 } else { 4 }), ("cases", if thorough { 10000 } else { 300 }), ("exhaustive_max_n", 4)]),
+                params: params(&[("depth", if thorough { 5 } else { 4 }), ("cases", if thorough { 10000 } else { 600 }), ("exhaustive_max_n", 4)]),
                 strum_features: vec!["derive".into()],
                 profiles: vec!["dev"],
                 policy: Policy::TaggedOnly,
@@ -483,7 +483,7 @@ pub fn plan(id: &str, tier: &str, seed: u64, round: u64) -> Plan {
             }
         }
         "C09" => {
-            let n = if thorough { 480 } else { 160 };
+            let n = if thorough { 640 } else { 320 };
             let mut specs: Vec<EnumSpec> = (0..n).map(|_| gen::gen_disc(&mut rg)).collect();
             name_specs(&mut specs, round);
             Plan {
@@ -497,7 +497,7 @@ pub fn plan(id: &str, tier: &str, seed: u64, round: u64) -> Plan {
             }
         }
         "C13" => {
-            let n = if thorough { 480 } else { 192 };
+            let n = if thorough { 640 } else { 384 };
             let mut specs: Vec<EnumSpec> = (0..n).map(|_| gen::gen_shape(&mut rg)).collect();
             name_specs(&mut specs, round);
             Plan {
